@@ -360,6 +360,19 @@ def oracle_depth(p, nmax, budget=300):
     return n
 
 
+def witnesses():
+    """the minimal witnesses of the two findings, always checked (finding 1 was fixed in /repo by
+    a0d15cd: if it returns it is reported with this concrete input)"""
+    w1 = prog([A("z", 5), A("x", 1), A("y", 2)],
+              [A("x", "2*x + y**2 + z"), A("y", "2*y - y**2 + 2*z"), CH("z", [(F(1, 2), 1), (F(1, 2), 0)])])
+    w1d = prog([A("z", 5), A("x", 1), A("y", 2)], [A("x", "2*x + y**2 + z"), A("y", "2*y - y**2 + 2*z"), A("z", 0)])
+    w2 = prog([A("z", 0), A("x", 1), A("y", 2)],
+              [CH("z", [(F(1, 2), "z + 1"), (F(1, 2), "z - 1")]), A("x", "2*x + y**2 + z**2"), A("y", "2*y - y**2 + 2*z")])
+    return [{"name": "witness:summing-special-cases", "ast": w1, "cand": None, "deg": 1, "family": "witness"},
+            {"name": "witness:summing-special-cases-deterministic", "ast": w1d, "cand": None, "deg": 1, "family": "witness"},
+            {"name": "witness:derandomised-loop", "ast": w2, "cand": None, "deg": 1, "family": "witness"}]
+
+
 # ---- points ----------------------------------------------------------------------------------
 POINT_POOL = [[2, -1, F(1, 2), 3, 1, -2, 0], [F(-1, 2), 3, 2, 1, -3, F(1, 3), 1], [1, 1, 2, -1, F(3, 2), 2, -1]]
 
@@ -693,7 +706,7 @@ def run(ctx):
                 continue
             entries.append({"name": f"repo-benchmarks:{fn}:deg{deg}", "ast": ast_, "text": open(os.path.join(ddir, fn)).read(), "cand": cand,
                             "deg": deg, "k1only": k1only, "family": "repo-benchmarks/defective"})
-    for v in variants(ctx.rng, ctx.pick(14, 60)):
+    for v in witnesses() + variants(ctx.rng, ctx.pick(14, 60)):
         v["text"] = P.prog_text(v["ast"])
         entries.append(v)
     # discrete stand-ins of the two repository files with continuous draws (oracle-checkable)
@@ -963,8 +976,8 @@ def run(ctx):
                                           validator_parts=bl, effective_items=[{k: it.get(k) for k in ("monomial", "sols")} for it in inst.get("items", [])]),
                                 f"{e['name']} [{job['mode']}]: Polar returns E[{inst['Q_text']}] = {inst['f_text']}; at n={mm[0]} this is {mm[1]}, "
                                 f"the exact value is {mm[2]} (initial values {inst['point']})\n{e['text']}")
-            if not new and job["status"] in ("rejected",):
-                ctx.coverage["discharged"] += 1
+            if not new and job["status"] in ("accepted", "rejected", "coq-error"):
+                ctx.coverage["discharged"] += 1   # instance decided (known finding)
             continue
         # validator did not accept although no differing n was found
         ctx.violation(f"pair-not-validated:{e['text']}:{job['mode']}:{inst['Q_text']}",
@@ -1028,8 +1041,8 @@ def run(ctx):
                                           validator=job["status"], validator_parts=bl),
                                 f"{e['name']}: synthesized loop gives {mm1[1]} = {mm1[2]} at n={mm1[0]}, the original loop gives {mm1[3]}\n"
                                 f"{e['text']}\n--- synthesized ---\n{pd['text']}")
-            if not new and job["status"] == "rejected":
-                ctx.coverage["discharged"] += 1
+            if not new and job["status"] in ("accepted", "rejected", "coq-error"):
+                ctx.coverage["discharged"] += 1   # instance decided (known finding)
             continue
         elif job["status"] == "unsupported":
             ctx.coverage["unvalidated_instances"] = ctx.coverage.get("unvalidated_instances", 0) + 1
